@@ -4,6 +4,7 @@
 //	vf run     -pkg ./json -overlay ... -harness vfH_x -set vfLen=3    (one job, human readable; debugging)
 //	vf check   <ID> [--tier quick|thorough] [--jobs N]                  (the registered checks; see driver.go)
 //	vf replay  <path>                                                  (native replay of a stored witness)
+//go:debug gotypesalias=0
 package main
 
 import (
